@@ -227,7 +227,18 @@ func c09Stream(w *SrvWorld, p C09Peer, extraClients *[]c09Genuine) (s []byte, fi
 					ks = e
 				}
 			}
-			switch rng.IntN(5) {
+			switch rng.IntN(6) {
+			case 5:
+				// the hello ends inside the x25519 share: every enclosing length says
+				// so consistently, only the entry itself still announces 32 bytes
+				cut := ch.KeyShareOff + []int{0, 6, 14, 31}[rng.IntN(4)]
+				h = append([]byte(nil), h[:cut]...)
+				binary.BigEndian.PutUint16(h[ks.Off:], uint16(cut-(ks.Off+2)))
+				binary.BigEndian.PutUint16(h[ks.Off-2:], uint16(cut-ks.Off))
+				eo := ch.Exts[0].Off - 6
+				binary.BigEndian.PutUint16(h[eo:], uint16(cut-(eo+2)))
+				h[6], h[7], h[8] = byte((cut-9)>>16), byte((cut-9)>>8), byte(cut-9)
+				binary.BigEndian.PutUint16(h[3:], uint16(cut-5))
 			case 0: // list length beyond the extension
 				binary.BigEndian.PutUint16(h[ks.Off:], uint16(ks.Len+rng.IntN(4000)))
 			case 1: // x25519 entry claims more bytes than there are
